@@ -318,6 +318,11 @@ func byteLevel(run *vk.Run, w *world.World, pt []byte) {
 			if off%5 == 0 {
 				ins("random-insert", off, byte(rng.Intn(256)))
 			}
+			if off < 23 { // the intro line: every position gets a digit, a sign, a blank
+				for _, b := range []byte{'0', '1', '+', '-', ' ', '\t'} {
+					ins("intro-insert", off, b)
+				}
+			}
 		}
 		for off := 0; off < hdrLen; off += 3 {
 			f := append(append([]byte{}, h.file[:off]...), h.file[off+1:]...)
